@@ -33,7 +33,7 @@ func (g *IG) callArgs(n int) []ssa.Value {
 // resultOf: v is result #idx of a call that resolves to fn (idx -1: the single
 // result). Looks through Extract and type-only conversions.
 func (m *Module) resultOf(v ssa.Value, fn *ssa.Function, idx int) (*ssa.Call, bool) {
-	v = strip(v)
+	v = through(v)
 	if ex, ok := v.(*ssa.Extract); ok {
 		if call, ok := ex.Tuple.(*ssa.Call); ok && m.callee(call.Common()) == fn && (idx < 0 || ex.Index == idx) {
 			return call, true
